@@ -616,7 +616,7 @@ def run(repo, check):
     check.run_rule(rule_r4, repo)
     check.run_rule(rule_r5, repo)
     from sa.rules import c01
-    r6 = c01.rule_r1(repo)
+    r6 = check.call(c01.rule_r1, repo)
     r6.rule = 'C14.R6'
     r6.title = 'a descriptor that is in no table makes the walk fail with UnknownDescriptor (shared with C01.R1)'
     r6.findings = [f for f in r6.findings if 'Undefined' in f.key]
@@ -624,7 +624,7 @@ def run(repo, check):
         f.rule = 'C14.R6'
     check.add(r6)
     from sa.rules import c13
-    r7 = c13.rule_r5(repo)
+    r7 = check.call(c13.rule_r5, repo)
     r7.rule = 'C14.R7'
     r7.title = 'every table-version selection gets its table group, also beyond the cache limit (shared with C13.R5)'
     for f in r7.findings:
